@@ -234,6 +234,18 @@ std::string do_showxml(World& w, const std::vector<std::string>& t) {
   return r;
 }
 
+// cmpdocs <docA> <docB>: every element, parameter, block and reference list (by ID) of the two documents, and the XML
+// written from each (C09: a deep copy is equal to its original and serialises to the same bytes)
+std::string do_cmpdocs(World& w, const std::vector<std::string>& t) {
+  auto a = dump_doc(w.doc(t.at(1)), true), b = dump_doc(w.doc(t.at(2)), true);
+  if (a != b) return "ok DUMPDIFF " + sanitize(first_diff(a, b));
+  std::string xa, xb;
+  try { std::ostringstream o; writeXml(o, w.doc(t.at(1))); xa = o.str(); } catch (const std::exception& e) { xa = std::string("EXN ") + e.what(); }
+  try { std::ostringstream o; writeXml(o, w.doc(t.at(2))); xb = o.str(); } catch (const std::exception& e) { xb = std::string("EXN ") + e.what(); }
+  if (xa != xb) return "ok XMLDIFF " + sanitize(first_diff(split_lines(xa), split_lines(xb)));
+  return "ok same " + std::to_string(a.size());
+}
+
 // p2w <hex of the XML bytes> <env> <dflt>: parse -> write -> parse; the two parsed documents must show the same
 // elements, IDs, parameter values, block formats and ordered reference lists (C02)
 std::string do_p2w(const std::vector<std::string>& t) {
@@ -591,6 +603,7 @@ bool run_xml_op(World& w, const std::vector<std::string>& t, std::string& r) {
   if (c == "commondefs") { addCommonDefinitionsTo(w.doc(t.at(1))); r = "ok"; return true; }
   if (c == "bindcd") { r = do_bindcd(w, t); return true; }
   if (c == "showxml") { r = do_showxml(w, t); return true; }
+  if (c == "cmpdocs") { r = do_cmpdocs(w, t); return true; }
   if (c == "fill") { r = do_fill(w, t); return true; }
   if (c == "fillblock") { r = do_fillblock(w, t); return true; }
   if (c == "roundtrip") { r = do_roundtrip(w, t); return true; }
